@@ -20,7 +20,7 @@ use sos_sync::{
     ForceMerge, MaybeConflict, Merge, MergeOutcome, StorageEventLogs,
     SyncDirection, SyncStatus,
 };
-use std::collections::HashSet;
+use std::collections::{HashMap, HashSet};
 use tracing::instrument;
 
 const PROOF_SCAN_LIMIT: u16 = 32;
@@ -620,9 +620,21 @@ pub trait AutoMerge: RemoteSyncHandler {
 
         // Combine the event records; an identical event made
         // independently on both sides is only included once
+        // (an event that occurs more often on the remote than it
+        // does locally keeps the additional occurrences)
+        let mut local_counts = HashMap::new();
+        for record in &local {
+            *local_counts.entry(*record.commit()).or_insert(0usize) += 1;
+        }
         let remote = remote
             .into_iter()
-            .filter(|r| !local_commits.contains(r.commit()))
+            .filter(|r| match local_counts.get_mut(r.commit()) {
+                Some(count) if *count > 0 => {
+                    *count -= 1;
+                    false
+                }
+                _ => true,
+            })
             .collect::<Vec<_>>();
         local.extend(remote);
 
